@@ -25,10 +25,6 @@ def gen_case(ctx: Ctx, kind=None):
     if rng.random() < 0.25:  # mixed: up in some axes, down in others
         big = [max(1, s + rng.randint(-4, 6)) for s in shape]
     ens = [] if rng.random() < 0.6 else [rng.randint(1, 3)]
-    if nd == 1 and not ens:
-        # a bare 1-D array makes the FFTW dispatch raise IndexError("Invalid axes") in _new_fftw_object (axes=(-2,-1) on a 1-D
-        # dummy; FFT-backend defect, see design/C15.md) — 1-D interpolation is exercised with a batch dimension
-        ens = [rng.randint(1, 3)]
     return dict(kind=kind, shape=shape, big=big, ens=ens, seed=rng.randint(0, 10 ** 6),
                 precision=rng.choice(["float64", "float64", "float32"]), norm=rng.choice(["values", "amplitude", "intensity"]))
 
@@ -236,11 +232,18 @@ class C15(Property):
     def conformance(self, ctx: Ctx):
         for _ in range(ctx.n(160, 2500)):
             case = gen_case(ctx)
-            self.oracle(ctx, case)
+            self.safe_oracle(ctx, case)
             ctx.case(case)
 
+    def safe_oracle(self, ctx: Ctx, case):
+        try:
+            self.oracle(ctx, case)
+        except Exception as e:  # noqa  (an interpolation / shift that raises on a valid shape is a violation of its own)
+            ctx.violation(f"{case['kind']}-raises:{type(e).__name__}:{len(case['shape'])}d{'+batch' if case['ens'] else ''}", case,
+                          dict(error=f"{type(e).__name__}: {e}"[:300]))
+
     def replay(self, ctx: Ctx, case):
-        self.oracle(ctx, case)
+        self.safe_oracle(ctx, case)
 
 
 if __name__ == "__main__":
